@@ -12,7 +12,7 @@ RULE = ('pairs and triples of render-distinct trees: random, related by 1-4 rewr
         'without a table, and on one created in between, as strings, as parsed objects, and as objects parsed by different instances; Spec on the '
         'real code: is_equivalent reflexive, symmetric, sound against truth tables (computed in Lean), True on rewrite-related '
         'pairs, same answer on every instance and for strings as for objects; contains(a,a), contains invariant under replacing '
-        'either side by an equivalent, a WITH pair contains its parts, contains(a,b) => licenses of simplified b occur in a. '
+        'either side by an equivalent (a rewrite; the same expression simplified beforehand, with and without sorting), a WITH pair contains its parts, contains(a,b) => licenses of simplified b occur in a. '
         'Correspondence: both answers with the model. non-trivial = both trees are nodes; distinct by pair')
 ASSUMPTIONS = ['RenderDistinct, as for C07; strings are the default renderings of the trees over operator-word-free keys']
 
@@ -122,6 +122,16 @@ class Prop(BaseProp):
         # a2 ~ a and b2 ~ b by construction (rewrites): containment must not change
         if l1.contains(ea2, eb) != ct or l1.contains(ea, eb2) != ct:
             return Verdict('spec', case, 'contains changes under an equivalent argument', impl=[ct, l1.contains(ea2, eb), l1.contains(ea, eb2)], tags=tags)
+        # equivalent arguments the caller simplified beforehand, with and without sorting (boolean.py: simplify(sort=False)
+        # marks its unsorted result canonical, so a later simplify() returns it as it is)
+        try:
+            ns = lambda x: x.simplify(sort=False) if isinstance(x, (impl.boolean.AND, impl.boolean.OR)) else x.simplify()  # noqa (symbols take no `sort`)
+            pre = [ea.simplify(), ns(ea), ns(ea2)], [eb.simplify(), ns(eb), ns(eb2)]
+            got = [[l1.contains(x, y), l1.is_equivalent(x, y)] for x in pre[0] for y in pre[1]]
+        except BaseException as e:  # noqa
+            return Verdict('spec', case, 'raised %s on arguments simplified beforehand' % type(e).__name__, tags=tags)
+        if any(g != [ct, eq] for g in got):
+            return Verdict('spec', case, 'contains / is_equivalent change when an argument was simplified beforehand (sorted or unsorted)', impl=got, model=[ct, eq], tags=tags)
         if ct:
             need = set(U.keys_decomposed(impl.tree_c(eb.simplify())))
             have = set(U.keys_decomposed(a))
